@@ -15,6 +15,9 @@ pub use builder::CacheBuilder;
 pub use cache::Cache;
 pub use iter::Iter;
 
+#[cfg(mini_moka_verif)]
+pub use cache::{VerifDeque, VerifEntryMeta};
+
 use crate::common::{deque::DeqNode, time::Instant};
 
 pub(crate) type Weigher<K, V> = Box<dyn FnMut(&K, &V) -> u32>;
